@@ -50,8 +50,11 @@ def sizes(ck):
     ck.harness(["ch-sizes", "--seed", ck.seed, "--out", path], timeout=1800)
     ck.validate_runs("ec/Trace_Choices", "ec/Trace_Choices.cfg", path,
                      lambda ev, prefix: f"trace:sized:{ev.get('kind')}",
-                     lambda ev, prefix: (f"{ev.get('kind')} asked for {ev.get('size')} elements delivered "
-                                         f"{ev.get('len')} (drew {ev.get('drawn')}): {json.dumps(ev)[:400]}"),
+                     lambda ev, prefix: ((f"bits {ev.get('at')} of {ev.get('size')}-bit random bitstrings took only "
+                                          f"{ev.get('fewest_pairs')} of the 4 possible value pairs in {ev.get('draws')} draws: they are "
+                                          f"not separate draws") if ev.get("ev") == "bits_free" else
+                                         (f"{ev.get('kind')} asked for {ev.get('size')} elements delivered "
+                                          f"{ev.get('len')} (drew {ev.get('drawn')}): {json.dumps(ev)[:400]}")),
                      regen=lambda ev: {"sizes": True}, timeout=2400)
     return vlib.read_ndjson(path)
 
